@@ -315,8 +315,7 @@ func checkC20(sc *Scenario, st *Stats) *Violation {
 			if strings.Contains(p, "c20Abort") {
 				return violf(fmt.Sprintf("reads/op=%02x", lastOp), "%s: instruction %02x performed more than %d state reads for %d gas", ex.Note, lastOp, c20ReadCap, m.rows[len(m.rows)-1].Cost)
 			}
-			st.Exclude("panic(C03)")
-			return nil
+			return violf("panic", "%s: the VM panicked: %.1500s", ex.Note, p)
 		}
 	}
 	big20, multi := false, false
